@@ -659,3 +659,20 @@ def run(repo, rep, tier):  # noqa: F811 -- round-5 shape rules appended to the r
 _ADDR5B = ' Borrowed: R20.9 (schemaArray keywords never empty); R06.1 also compares tuple layouts with Unpack members position by position (prefix, variable part, suffix; minItems / maxItems against the shortest / longest serialized form); R06.14: packer, unpacker and schema creators for overridden serialization consult the override look-up before anything else (no type family is exempted on one side only); R09.8: isinstance tests for the Annotated markers (Alias, Discriminator, JSON Schema constraints) are applied to the variable of a scan over the whole metadata sequence, so a marker is honoured at any position.'
 EXPLANATION += _ADDR5B
 LEVEL_TEXT += _ADDR5B
+
+
+_run_before_r6b = run
+
+
+def run(repo, rep, tier):  # noqa: F811 -- round-6 remedies (core/round6.py)
+    _run_before_r6b(repo, rep, tier)
+    if getattr(rep, "borrowed", False):
+        return
+    from ..core import round6 as _r6b
+    _r6b.numeric_keywords_not_truthy(repo, rep, "R06.15")
+    _r6b.own_config_only_sites(repo, rep, "R06.16")
+
+
+_ADDR6C = ' R06.15: numeric schema keywords are set under `is not None`, never by truthiness. R06.16: get_config(look_in_parents=False) is used by get_discriminator only.'
+EXPLANATION += _ADDR6C
+LEVEL_TEXT += _ADDR6C
